@@ -11,7 +11,7 @@ from vt.events import Req, DaemonSignal, EXIT1
 from vt.explorer import Result, digest
 from vt.runner import Scenario
 from vt.simkernel import PID_BASE, RUNNING, ZOMBIE
-from vt.world import World, WSpec, Abort
+from vt.world import World, WSpec, Abort, DaemonKilled
 import vt.world as VW
 
 ID = 'C08'
@@ -58,6 +58,11 @@ def scenarios(tier):
     out.append(Scenario('main', pre='none', pidfile=True, E=1, nw=2, pat='obedient', w=0, gw=1, socks=1, hup=True))
     if tier != 'quick':
         out.append(Scenario('main', pre='none', pidfile=True, E=2, nw=2, pat='stubborn', w=0, gw=0, socks=1))
+    # a SECOND termination event while the shutdown started by the first is under way (an operator who signals twice, an
+    # init system that sends SIGTERM after `circusctl quit`): what holds for one holds for two
+    out.append(Scenario('main', pre='none', pidfile=True, E=2, nw=1, pat='stubborn', w=0, gw=0, socks=2, again=True))
+    if tier != 'quick':
+        out.append(Scenario('main', pre='restart', pidfile=True, E=2, nw=2, pat='first-stubborn', w=0, gw=0, socks=1, again=True))
     for pc in PIDFILE_CASES:
         out.append(Scenario('pidfile', case=pc, nodet=True))
     return out
@@ -98,7 +103,7 @@ def _install_main_seams():
 
 
 def term_menu(world):
-    if world.terminated is not None:
+    if world.terminated is not None and not (world.again and world.second is None):
         return []
     evs = []
     for name, sig in TERMS:
@@ -117,6 +122,10 @@ class T(object):
 
     def apply(self, world):
         slot = world.slot() or ('<restarting>' if world.arbiter._restarting else None)
+        if world.terminated is not None:
+            world.second = (CLOCK.now, self.label)
+            self.ev.apply(world)
+            return
         r = self.ev.apply(world)
         if isinstance(self.ev, Req) and r is not None and not r.ok():
             # a quit REQUEST that is refused (conflict) tells its client so: the property is about accepted quit requests
@@ -150,10 +159,11 @@ def run(scn, ch):
     clients = []
     world.arbiters = []
     world.terminated = None
+    world.again, world.second = bool(scn.p.get('again')), None
     world.exit_code = 'not-exited'
     world.phase = 0
-    win = Window(world, lmenu=term_menu, statuses=(EXIT1,), kpoints=(scn.E > 1))
-    if scn.E <= 1:
+    win = Window(world, lmenu=term_menu, statuses=(EXIT1,), kpoints=(scn.E > 1 and not world.again))
+    if scn.E <= 1 or world.again:
         # only termination events are deviations (no deaths)
         win.menu = lambda w: term_menu(w) if win.open else []
     pre = PRE[scn.pre]
@@ -242,12 +252,18 @@ def run(scn, ch):
             world.exit_code = e.code
         except Abort as e:
             state['abort'] = str(e)
+        except DaemonKilled as e:
+            world.exit_code = 'killed by signal %d (its disposition was the default one)' % e.signum
+        except KeyboardInterrupt:
+            world.exit_code = 'KeyboardInterrupt'
         except Exception as e:
             world.exit_code = 'exception: %r' % e
         finally:
             sys.argv = argv
         term = world.terminated
         tlab = term[1] if term else None
+        if world.second:
+            tlab = '%s then %s %.2fs later' % (tlab, world.second[1], world.second[0] - term[0])
         slot_at = term[2] if term else None
         site = 'arbiter.stop'
         if state['deadline_missed'] and slot_at:
